@@ -85,9 +85,10 @@ SetupsThorough ==
   \cup AlterSetups(3, 3, {0, 1}) \cup AlterSetups(2, 4, {0})
 
 SetupsThorough2 ==
-  {HashSetup(sk, m, m, {0, 1}, salt) : sk \in ShardKeys, m \in {2, 3, 4}, salt \in {0, 1}}
-  \cup {RangeSetup(<<"host">>, << K1("b") >>, {0, 1}, s) : s \in {-1, 0, 1}}
-  \cup {RangeSetup(<<"host", "region">>, b, {0, 1}, s) : b \in {<< K1("b") >>, << K2("a", "b"), K2("b", "a") >>}, s \in {-1, 0, 1}}
+  {HashSetup(sk, m, m, {0, 1}, 0) : sk \in ShardKeys, m \in {2, 3, 4}}
+  \cup {HashSetup(sk, 3, 3, {0, 1}, 1) : sk \in ShardKeys}
+  \cup {RangeSetup(<<"host">>, << K1("b") >>, {0, 1}, s) : s \in {-1, 0}}
+  \cup {RangeSetup(<<"host", "region">>, b, {0, 1}, s) : b \in {<< K1("b") >>, << K2("a", "b"), K2("b", "a") >>}, s \in {-1, 0}}
   \cup AlterSetups(3, 3, {0})
 
 SetupsExport ==
